@@ -1217,7 +1217,7 @@ pub fn c08(rec: &mut Rec, lm: &Landmarks, rng: &mut Rng, thorough: bool) {
                         1 => (TimeScale::UTC, 4 + j),
                         _ => (TimeScale::TAI, 8 + j),
                     };
-                    m.from_greg_helper(hts, y, mo, d, (k % 24) as u8, (k % 60) as u8, (k % 59) as u8, (k as u32 * 7919) % 1_000_000_000, form);
+                    m.from_greg_helper(hts, y, mo, d, (k % 24) as u8, (k % 60) as u8, (k % 59) as u8, ((k as u64 * 7919) % 1_000_000_000) as u32, form);
                 }
             }
         }
